@@ -44,7 +44,8 @@ var propSpecs = map[string]*PropSpec{
 		{"benchunit", "scale", "the half-unit accuracy and digit-count claims at every threshold (exact decimal arithmetic on the printed text), shared scales, unit classes and the no-op scale — the rounding of val/factor and strconv's fixed formatting are not modelled deductively"}}},
 	"C11": {ID: "C11", Pkgs: []string{"./internal/stats"}, BoundedChecks: []boundedSpec{
 		{"internal/stats", "utest", "U statistic, exact one- and two-sided p-values, PMF/CDF of the U distribution against brute-force enumeration of label assignments; mathChoose against big integers; the normal approximation evaluated independently; error cases — stands in for UDist.p / makeUmemo (combinatorial recurrences) and the rank-sum loop, which are outside deductive reach"}}},
-	"C12": {ID: "C12", Pkgs: []string{"./internal/stats"}},
+	"C12": {ID: "C12", Pkgs: []string{"./internal/stats"}, BoundedChecks: []boundedSpec{
+		{"internal/stats", "dist", "Student-t distribution function for degrees of freedom from 1 to 1e5 (incl. non-integers) on a grid over [-8,8]: range, monotonicity, symmetry, no failure to converge, agreement with Simpson integration of the density, the generic inverse; incomplete-beta symmetry; normal distribution and its inverse; all four t-tests against the textbook formulas with unequal sizes and all alternatives, error cases; mean, variance, bounds, geometric mean and R8 percentiles of random samples (1-300 values, scales 1e-6..1e5, common offsets, multiplicities, unsorted) against exact rational evaluation — lgamma, the continued fraction, erfc, bisection and the summation loops are floating-point algorithms outside deductive reach"}}},
 	"C13": {ID: "C13", Pkgs: []string{"./benchmath"}, BoundedChecks: []boundedSpec{
 		{"benchmath", "compare", "AssumeNothing.Compare on all pairs of small samples: both sizes, p in [0,1], symmetric, invariant under reordering and common rescaling, equal to the exact permutation p-value for untied samples, threshold carried — the statistical content lives in the external module go-moremath and is outside deductive reach"}}},
 	"C14": {ID: "C14", Pkgs: []string{"./cmd/benchstat/internal/benchtab", "./benchproc", "./benchmath"}, BoundedChecks: []boundedSpec{
